@@ -1,0 +1,9 @@
+//go:build !verif
+
+// Package verifhook provides named instrumentation points for external
+// runtime monitors. Without the "verif" build tag every point is a no-op.
+package verifhook
+
+// Point marks a named place in the code; id is the broker/service id the
+// goroutine is working on where there is one, 0 otherwise.
+func Point(name string, id uint32) {}
